@@ -77,3 +77,34 @@ Proof.
   - pose proof (parse_len_be16_enc inner rest LI) as X. unfold wrap16 in X. exact X.
   - unfold inner. pose proof (parse_len_u8_enc (concat parts) [] L) as X. rewrite app_nil_r in X. exact X.
 Qed.
+
+(** the fixed-width integer encoders for EVERY script integer: the value modulo the width of the field *)
+Theorem int_exact e v h :
+  call e "std::u8" [VU64 v] [] h = Some (Ok (VStr [v mod 256], h))
+  /\ call e "std::be16" [VU64 v] [] h = Some (Ok (VStr (be16 (v mod 65536)), h))
+  /\ call e "std::be32" [VU64 v] [] h = Some (Ok (VStr (be32 (v mod 4294967296)), h))
+  /\ call e "std::le16" [VU64 v] [] h = Some (Ok (VStr (le16 (v mod 65536)), h))
+  /\ call e "std::le32" [VU64 v] [] h = Some (Ok (VStr (le32 (v mod 4294967296)), h)).
+Proof. repeat split; unfold call; reflexivity. Qed.
+
+(** so the decoder returns the script's integer exactly when it fits the field *)
+Theorem int_iff e v rest h :
+  (forall out, call e "std::u8" [VU64 v] [] h = Some (Ok (VStr out, h)) ->
+               (parse_u8 (out ++ rest) = Some (v, rest) <-> v < 256))
+  /\ (forall out, call e "std::be16" [VU64 v] [] h = Some (Ok (VStr out, h)) ->
+                  (parse_be16 (out ++ rest) = Some (v, rest) <-> v < 65536))
+  /\ (forall out, call e "std::be32" [VU64 v] [] h = Some (Ok (VStr out, h)) ->
+                  (parse_be32 (out ++ rest) = Some (v, rest) <-> v < 4294967296)).
+Proof.
+  destruct (int_exact e v h) as (E8 & E16 & E32 & _).
+  split; [|split]; intros out C.
+  - rewrite E8 in C. injection C as C. subst out. cbn [app]. rewrite parse_u8_cons. split.
+    + intros P. injection P as P. lia.
+    + intros L. rewrite N.mod_small by lia. reflexivity.
+  - rewrite E16 in C. injection C as C. subst out. rewrite parse_be16_enc by lia. split.
+    + intros P. injection P as P. lia.
+    + intros L. rewrite N.mod_small by lia. reflexivity.
+  - rewrite E32 in C. injection C as C. subst out. rewrite parse_be32_enc by lia. split.
+    + intros P. injection P as P. lia.
+    + intros L. rewrite N.mod_small by lia. reflexivity.
+Qed.
